@@ -10,6 +10,8 @@ func init() {
 			c.SigningRootProvenance("C06") // incl. C06.O5: a malformed root or domain fails the hash
 			c.PreCheckRules("C06")
 			c.RulerOrigins("C06")
+			c.RulerPositions("C06") // a denial computed for one position is not handed to another one
+			c.ScatterIndexDiscipline("C06")
 			if s := c.Slashing("C06.anchors"); s.OK() {
 				c.FetchHelperRules("C06", s, "att")
 				c.FetchHelperRules("C06", s, "prop")
